@@ -41,10 +41,10 @@ def utf16Len : Bytes → Nat
 
 def nl : UInt8 := 10
 
-/-- `s.is_char_boundary(i)` (valid UTF-8 `s`). -/
+/-- `s.is_char_boundary(i)` for valid UTF-8 `s` (whose first byte is never a continuation byte):
+the end of the text, or the first byte of a character. -/
 def isBoundary (s : Bytes) (i : Nat) : Bool :=
-  if i == 0 then true
-  else if i == s.length then true
+  if i == s.length then true
   else match s[i]? with
     | some b => !isCont b
     | none => false
